@@ -72,6 +72,8 @@ pub struct Frame {
 }
 
 pub struct Scripted {
+    /// op -> number of leading pages answered at once (see `Op::lead`)
+    pub lead: Mutex<HashMap<u64, usize>>,
     pub scripts: Mutex<HashMap<u64, Vec<Att>>>,
     pub frames: Arc<Mutex<HashMap<u64, Vec<Frame>>>>,
     pub withheld: Mutex<HashMap<u64, Vec<(Rq, usize)>>>,
@@ -80,7 +82,7 @@ pub struct Scripted {
 
 impl Scripted {
     pub fn new() -> Arc<Self> {
-        Arc::new(Self { scripts: Mutex::new(HashMap::new()), frames: Arc::new(Mutex::new(HashMap::new())), withheld: Mutex::new(HashMap::new()), log: Mutex::new(None) })
+        Arc::new(Self { lead: Mutex::new(HashMap::new()), scripts: Mutex::new(HashMap::new()), frames: Arc::new(Mutex::new(HashMap::new())), withheld: Mutex::new(HashMap::new()), log: Mutex::new(None) })
     }
     fn op_of(rq: &Rq) -> Option<u64> {
         let from_text = |q: &str| q.strip_prefix(OPQ).and_then(|s| s.split(',').next()).and_then(|s| s.trim().parse::<u64>().ok());
@@ -142,6 +144,25 @@ impl Handler for Scripted {
             Request::Batch { consistency, .. } => *consistency,
             _ => 0,
         };
+        // leading pages of a paged request: served at once, not part of the judged attempts
+        let lead = self.lead.lock().unwrap().get(&op).copied().unwrap_or(0);
+        if lead > 0 {
+            let ps = match &*rq.request {
+                Request::Query { params, .. } | Request::Execute { params, .. } => params.paging_state.clone(),
+                _ => None,
+            };
+            let page = match &ps {
+                None => 0,
+                Some(b) => std::str::from_utf8(b).ok().and_then(|t| t.strip_prefix("lead-")).and_then(|t| t.parse::<usize>().ok()).unwrap_or(usize::MAX),
+            };
+            if page < lead {
+                rq.reply(&Response::Result(ResultBody::Rows {
+                    metadata: ResultMetadata { columns: att_cols(), paging_state: Some(format!("lead-{}", page + 1).into_bytes()), no_metadata: false, global_spec: true, new_metadata_id: None },
+                    rows: vec![vec![Some((op as i64).to_be_bytes().to_vec()), Some((-1i32 - page as i32).to_be_bytes().to_vec()), Some((rq.node.idx as i32).to_be_bytes().to_vec())]],
+                }));
+                return;
+            }
+        }
         let (attempt, outcome) = {
             let mut fr = self.frames.lock().unwrap();
             let v = fr.entry(op).or_default();
@@ -202,6 +223,9 @@ pub struct Decision {
 struct RecPolicy {
     inner: Arc<dyn RetryPolicy>,
     rec: Arc<Mutex<HashMap<u64, Vec<Decision>>>>,
+    /// set when the policy object belongs to one statement (statement-level policy); otherwise the
+    /// logical request is found through the task-local of the calling task (profile-level policy)
+    op: Option<u64>,
 }
 struct RecSession {
     inner: Box<dyn RetrySession>,
@@ -210,7 +234,7 @@ struct RecSession {
 }
 impl RetryPolicy for RecPolicy {
     fn new_session(&self) -> Box<dyn RetrySession> {
-        Box::new(RecSession { inner: self.inner.new_session(), rec: self.rec.clone(), op: CUR_OP.try_with(|o| *o).ok() })
+        Box::new(RecSession { inner: self.inner.new_session(), rec: self.rec.clone(), op: self.op.or_else(|| CUR_OP.try_with(|o| *o).ok()) })
     }
 }
 impl RetrySession for RecSession {
@@ -258,9 +282,12 @@ struct Op {
     idempotent: bool,
     api: Api,
     cl: Consistency,
+    /// paging-iterator APIs only: this many pages are served at once (each with a paging state) before
+    /// the page the script applies to; frames and decisions are those of that LAST page
+    lead: usize,
 }
 
-async fn issue(session: &Session, prepared: &scylla::statement::prepared::PreparedStatement, o: &Op) -> Result<Option<(i64, i32, i32)>, String> {
+async fn issue(session: &Session, prepared: &scylla::statement::prepared::PreparedStatement, o: &Op, own_policy: Option<Arc<dyn RetryPolicy>>) -> Result<Option<(i64, i32, i32)>, String> {
     let text = format!("{OPQ}{}, 0)", o.op);
     if matches!(o.api, Api::QueryIter | Api::ExecuteIter) {
         use futures::StreamExt;
@@ -268,20 +295,26 @@ async fn issue(session: &Session, prepared: &scylla::statement::prepared::Prepar
             let mut st = scylla::statement::Statement::new(text);
             st.set_is_idempotent(o.idempotent);
             st.set_consistency(o.cl);
+            st.set_retry_policy(own_policy.clone());
             session.query_iter(st, ()).await
         } else {
             let mut p = prepared.clone();
             p.set_is_idempotent(o.idempotent);
             p.set_consistency(o.cl);
+            p.set_retry_policy(own_policy.clone());
             session.execute_iter(p, (o.op as i64,)).await
         };
         let pager = pager.map_err(|e| format!("{e}"))?;
         let mut stream = pager.rows_stream::<(i64, i32, i32)>().map_err(|e| format!("undecodable answer: {e}"))?;
-        return match stream.next().await {
-            None => Ok(None),
-            Some(Ok(row)) => Ok(Some(row)),
-            Some(Err(e)) => Err(format!("{e}")),
-        };
+        // the row of the LAST page is the answer (leading pages carry negative attempt numbers)
+        let mut last = None;
+        loop {
+            match stream.next().await {
+                None => return Ok(last),
+                Some(Ok(row)) => last = Some(row),
+                Some(Err(e)) => return Err(format!("{e}")),
+            }
+        }
     }
     let res = match o.api {
         Api::QueryIter | Api::ExecuteIter => unreachable!(),
@@ -342,7 +375,7 @@ async fn run_ops(ops: Vec<Op>, policy: u8, spec_exec: Option<(usize, u64)>, sequ
         1 => Arc::new(DowngradingConsistencyRetryPolicy::new()),
         _ => Arc::new(FallthroughRetryPolicy::new()),
     };
-    let mut pb = ExecutionProfile::builder().retry_policy(Arc::new(RecPolicy { inner, rec: rec.clone() })).request_timeout(None);
+    let mut pb = ExecutionProfile::builder().retry_policy(Arc::new(RecPolicy { inner: inner.clone(), rec: rec.clone(), op: None })).request_timeout(None);
     if let Some((max, interval)) = spec_exec {
         pb = pb.speculative_execution_policy(Some(Arc::new(SimpleSpeculativeExecutionPolicy { max_retry_count: max, retry_interval: Duration::from_millis(interval) })));
     }
@@ -369,14 +402,20 @@ async fn run_ops(ops: Vec<Op>, policy: u8, spec_exec: Option<(usize, u64)>, sequ
     };
     for o in &ops {
         handler.scripts.lock().unwrap().insert(o.op, o.script.clone());
+        if o.lead > 0 {
+            handler.lead.lock().unwrap().insert(o.op, o.lead);
+        }
     }
     let log = cluster.log().clone();
     let mut handles = Vec::new();
     for o in ops.iter().cloned() {
         let (s, p, l, h) = (session.clone(), prepared.clone(), log.clone(), handler.clone());
+        // the decisions of a paged request's later pages are taken in the pager's own task: such a request carries
+        // its own (statement-level) recording policy; every other request uses the profile's
+        let own: Option<Arc<dyn RetryPolicy>> = if o.lead > 0 { Some(Arc::new(RecPolicy { inner: inner.clone(), rec: rec.clone(), op: Some(o.op) })) } else { None };
         let fut = async move {
             call(&l, o.op, "op", format!("{:?}", o.api));
-            let r = tokio::time::timeout(Duration::from_secs(25), CUR_OP.scope(o.op, issue(&s, &p, &o))).await;
+            let r = tokio::time::timeout(Duration::from_secs(25), CUR_OP.scope(o.op, issue(&s, &p, &o, own))).await;
             ret(&l, o.op, matches!(r, Ok(Ok(_))), "");
             h.release(o.op);
             (o.op, r)
@@ -454,6 +493,7 @@ fn gen_c06_ops(rng: &mut Rng, n: usize) -> Vec<Op> {
             idempotent: rng.chance(1, 3),
             api: *rng.pick(&[Api::QueryUnpaged, Api::ExecuteUnpaged, Api::Batch, Api::QuerySinglePage, Api::QueryIter, Api::ExecuteIter]),
             cl: *rng.pick(&[Consistency::One, Consistency::Quorum, Consistency::LocalQuorum, Consistency::All, Consistency::Two]),
+            lead: 0,
         });
     }
     v
@@ -481,6 +521,9 @@ fn judge_c06(o: &mut Outcome, ops: &[Op], policy: u8, r: &CaseOut) {
         let key = fw::hash64(format!("{pname}:{:?}:{}:{:?}:{:?}", op.script, op.idempotent, op.api, op.cl).as_bytes());
         o.case(key, frames.len() > 1 || op.script.len() > 1);
         o.class(&format!("api:{:?}", op.api));
+        if op.lead > 0 {
+            o.class("paged:script-applies-to-a-later-page");
+        }
         o.class(&format!("policy:{pname}"));
         if r.hung.contains(&op.op) {
             o.violation("c06b:request-never-returned", format!("request {} did not return within 25 s although every attempt had been answered", op.op), replay.clone());
@@ -601,6 +644,11 @@ pub fn run_c06_b(ctx: &Ctx) -> Outcome {
                 }
             }
         }
+        for o in ops.iter_mut() {
+            if matches!(o.api, Api::QueryIter | Api::ExecuteIter) && rng.chance(1, 2) {
+                o.lead = rng.usize(1, 2);
+            }
+        }
         cases.push((ops, (i % 3) as u8, spec));
     }
     for chunk in cases.chunks(6) {
@@ -634,7 +682,7 @@ pub fn run_c06_b(ctx: &Ctx) -> Outcome {
     }
     for c in ["api:QueryUnpaged", "api:ExecuteUnpaged", "api:Batch", "api:QuerySinglePage", "api:QueryIter", "api:ExecuteIter", "policy:default", "policy:downgrading", "policy:fallthrough",
         "non-idempotent:resent-after-proof-of-non-application", "non-idempotent:stopped", "decision:retry-same-target", "decision:retry-next-target",
-        "speculative-policy-configured:slow-answer-to-non-idempotent"] {
+        "speculative-policy-configured:slow-answer-to-non-idempotent", "paged:script-applies-to-a-later-page"] {
         out.require_class(c);
     }
     out
@@ -660,6 +708,9 @@ fn judge_c13(o: &mut Outcome, ops: &[Op], max: usize, interval: u64, r: &CaseOut
         o.case(fw::hash64(format!("{max}:{interval}:{:?}:{}", op.script, op.idempotent).as_bytes()), true);
         o.class(if op.idempotent { "idempotent" } else { "non-idempotent" });
         o.class(&format!("api:{:?}", op.api));
+        if op.lead > 0 {
+            o.class("paged:script-applies-to-a-later-page");
+        }
         if max == 0 {
             o.class("max-speculative-executions:0");
         }
@@ -751,7 +802,7 @@ pub fn run_c13_b(ctx: &Ctx) -> Outcome {
             let first = if rng.bool() { Att::Withhold } else { Att::OkAfter(interval * *rng.pick(&[3u64, 8, 20])) };
             let later = |rng: &mut Rng| if rng.chance(1, 3) { Att::OkAfter(rng.below(interval * 3)) } else { Att::Ok };
             let script = vec![first, later(&mut rng), later(&mut rng), later(&mut rng), Att::Ok];
-            ops.push(Op { op: next_op(), script, idempotent: rng.bool(), api: *rng.pick(&[Api::QueryUnpaged, Api::ExecuteUnpaged, Api::QueryIter, Api::ExecuteIter]), cl: Consistency::One });
+            ops.push(Op { op: next_op(), script, idempotent: rng.bool(), api: *rng.pick(&[Api::QueryUnpaged, Api::ExecuteUnpaged, Api::QueryIter, Api::ExecuteIter]), cl: Consistency::One, lead: 0 });
         }
         // with max = 0 no second execution may ever start: a withheld first answer would never be released
         if max == 0 {
@@ -763,6 +814,11 @@ pub fn run_c13_b(ctx: &Ctx) -> Outcome {
         for o in ops.iter_mut() {
             if !o.idempotent {
                 o.script[0] = Att::OkAfter(interval * 8);
+            }
+        }
+        for o in ops.iter_mut() {
+            if matches!(o.api, Api::QueryIter | Api::ExecuteIter) && rng.chance(2, 3) {
+                o.lead = rng.usize(1, 2);
             }
         }
         cases.push((ops, max, interval, 0u8));
@@ -791,7 +847,12 @@ pub fn run_c13_b(ctx: &Ctx) -> Outcome {
                     *a = Att::Err("overloaded");
                 }
             }
-            ops.push(Op { op: next_op(), script, idempotent: true, api: *rng.pick(&[Api::QueryUnpaged, Api::ExecuteUnpaged, Api::QueryIter, Api::ExecuteIter]), cl: Consistency::One });
+            ops.push(Op { op: next_op(), script, idempotent: true, api: *rng.pick(&[Api::QueryUnpaged, Api::ExecuteUnpaged, Api::QueryIter, Api::ExecuteIter]), cl: Consistency::One, lead: 0 });
+        }
+        for o in ops.iter_mut() {
+            if matches!(o.api, Api::QueryIter | Api::ExecuteIter) && rng.chance(2, 3) {
+                o.lead = rng.usize(1, 2);
+            }
         }
         cases.push((ops, max, interval, 2u8));
     }
@@ -820,7 +881,7 @@ pub fn run_c13_b(ctx: &Ctx) -> Outcome {
             break;
         }
     }
-    for c in ["api:QueryIter", "api:ExecuteIter", "max-speculative-executions:0", "idempotent:definitive-error-returned", "idempotent", "non-idempotent", "idempotent:speculative-execution-started", "non-idempotent:single-execution-despite-slow-node", "idempotent:returned-while-slow-execution-still-pending"] {
+    for c in ["api:QueryIter", "api:ExecuteIter", "paged:script-applies-to-a-later-page", "max-speculative-executions:0", "idempotent:definitive-error-returned", "idempotent", "non-idempotent", "idempotent:speculative-execution-started", "non-idempotent:single-execution-despite-slow-node", "idempotent:returned-while-slow-execution-still-pending"] {
         out.require_class(c);
     }
     out
